@@ -72,6 +72,13 @@ func (c *Codec) level() int {
 
 type reader struct{ *gzip.Reader }
 
+// WriteTo shadows the method of the embedded gzip.Reader, which reports an
+// invalid checksum when part of the stream was consumed with Read before: the
+// rest of the stream is copied with Read.
+func (r *reader) WriteTo(w io.Writer) (int64, error) {
+	return io.Copy(w, struct{ io.Reader }{r.Reader})
+}
+
 func (r *reader) Close() (err error) {
 	if z := r.Reader; z != nil {
 		r.Reader = nil
